@@ -161,6 +161,8 @@ pub struct Lab {
     pub custom_serial: HashSet<String>,
     /// Activity counter (callbacks, gates) used by the driver's progress accounting.
     pub activity: u64,
+    /// Optional sink for log lines emitted by callbacks (set by the tracing harness).
+    pub log_hook: Option<fn(&str)>,
 }
 
 thread_local! {
@@ -315,8 +317,20 @@ pub async fn callback(key: String, world: Option<&mut W>, reason: Option<Reason>
     if let Some(w) = world {
         w.counter += 1;
     }
+    let hook = with_lab(|l| l.log_hook);
+    let nlogs = |phase: &str| crate::tape::hash_str(&format!("{key}#{inv}{phase}")) % 3;
+    if let Some(h) = hook {
+        for j in 0..nlogs("pre") {
+            h(&format!("LOGTOK|{key}|{inv}|{}|pre{j}|END", wid.map_or("-".to_string(), |w| w.to_string())));
+        }
+    }
     for g in 0..entry.gates {
         gate(format!("cb:{key}#{inv}.{g}")).await;
+    }
+    if let Some(h) = hook {
+        for j in 0..nlogs("post") {
+            h(&format!("LOGTOK|{key}|{inv}|{}|post{j}|END", wid.map_or("-".to_string(), |w| w.to_string())));
+        }
     }
     with_lab(|l| {
         let seq = l.tick();
